@@ -16,7 +16,7 @@ def exU : Universe where
     else if n = "m.o".toList then .ok (.obj 7)
     else if n = "m.s".toList then .ok (.json (.str "$res{a.r}".toList))
     else .error "AttributeError"
-  getItem := fun p => if p = "a/r".toList then .ok (.loaded 5) else .error "KeyError"
+  getItem := fun p => if p = "a/r".toList then .ok (.loaded 5 1) else .error "KeyError"
   getHandle := fun p => if p = "a/r".toList then .handle 5 else .json .null
   inTree := true
   userInfo := fun c =>
@@ -41,7 +41,7 @@ def exDesc : Desc where
 def exTd : Desc where
   processors := [⟨0, .cls 2, [.json (.int 5)], []⟩]
   entities := [
-    (none, [⟨1, .cls 3, [.obj 7, .loaded 5, exStr "x y", .json (.list [.str "${m.o}".toList])],
+    (none, [⟨1, .cls 3, [.obj 7, .loaded 5 1, exStr "x y", .json (.list [.str "${m.o}".toList])],
               [("z".toList, .handle 5)]⟩,
             ⟨2, .cls 4, [], []⟩]),
     (some (.str "foo".toList), [⟨3, .cls 3, [], []⟩])]
